@@ -5,19 +5,19 @@ ids = [json.loads(l)['id'] for l in open('/verif/properties.jsonl')]
 
 CHECKS = {
  'C01': dict(engine='seq', cat='model_checking', tech='explicit-state BFS to fixpoint over the real filesystem, reference-model comparison on every transition',
-   text='Every call of the TYPED alphabet is applied to every state reachable over a finite path universe on every backend configuration (BFS to fixpoint, rebuild by replay); outcome, required error kinds and the complete observable snapshot are compared with an abstract-tree model after every transition. Histories of unbounded length are covered wherever the fixpoint is reached.',
+   text='Every call of the TYPED alphabet is applied to every state reachable over a finite path universe on every backend configuration (BFS to fixpoint, rebuild by replay); outcome, required error kinds and the complete observable snapshot are compared with an abstract-tree model after every transition. Histories of unbounded length are covered wherever the fixpoint is reached. On a dedicated universe a refused call that changes nothing observable opens a state of its own (one per history), so every call is also made after every refused call.',
    note='alphabet bound (<=14 paths, <=3 components, listed names and contents), stack height <=3; overlay layers are filesystem roots or directories inside other filesystems (Sub); state key = raw snapshots of the base filesystems', ref='3/C01'),
  'C02': dict(engine='seq(pair)', cat='model_checking', tech='product explicit-state BFS: MemoryFS and PhysicalFS in lock-step, each the other\'s oracle',
-   text='The same histories are replayed on a fresh MemoryFS and a fresh PhysicalFS; BFS over the joint raw state; after every call the two must agree on Ok/Err, on the not-found and already-exists classes and on the full observable tree and bytes. Write/seek/flush scripts (depth 4 on memory, 3 on the physical backend) and read/seek scripts of depth 3 on handles of both backends are compared with a common cursor model; every public constructor of the in-memory backend (new, default, VfsPath::from) behaves like new() on all programs of <= 2 calls.',
+   text='The same histories are replayed on a fresh MemoryFS and a fresh PhysicalFS; BFS over the joint raw state; after every call the two must agree on Ok/Err, on the not-found and already-exists classes and on the full observable tree and bytes. Write/seek/flush scripts (depth 4 on memory, 3 on the physical backend) and read/seek scripts of depth 3 on handles of both backends are compared with a common cursor model; one pair explores the states after every refused call (residue mode); every public constructor of the in-memory backend (new, default, VfsPath::from) behaves like new() on all programs of <= 2 calls.',
    note='host filesystem tmpfs; names accepted by it; alphabet bound', ref='3/C02'),
  'C03': dict(engine='seq', cat='model_checking', tech='explicit-state BFS to fixpoint, well-formedness invariant on every reached state',
-   text='Every call (no type restriction) on every path in every reachable state of every configuration incl. overlays with populated lower layers; the invariant (root is a directory, every entry has a directory parent and is reached by walk_dir, no non-empty directory becomes a file) is evaluated on the top-level namespace and on every base filesystem after every transition. Write handles kept open across other calls (open / write+flush / write+drop as letters of the alphabet, the handle being part of the state) are explored on Mem, Phys, Alt and Overlay.',
+   text='Every call (no type restriction) on every path in every reachable state of every configuration incl. overlays with populated lower layers; the invariant (root is a directory, every entry has a directory parent and is reached by walk_dir, no non-empty directory becomes a file) is evaluated on the top-level namespace and on every base filesystem after every transition. Write handles kept open across other calls (open / write+flush / write+drop as letters of the alphabet, the handle being part of the state) are explored on Mem, Phys, Alt and Overlay; on a dedicated universe with a chain of three levels every call is also made after every refused call (residue mode).',
    note='alphabet bound; removal of the root itself excluded (as the property says)', ref='3/C03'),
  'C05': dict(engine='seq', cat='model_checking', tech='explicit-state BFS to fixpoint, cross-observer consistency invariant on every reached state',
-   text='In every reachable state every path of the universe (plus everything listings reveal) is observed with exists/metadata/is_file/is_dir/read_dir/open+read and walk_dir from every directory; the observers must tell one consistent story (model-free). Includes the states reached with a write handle kept open across other calls.',
+   text='In every reachable state every path of the universe (plus everything listings reveal) is observed with exists/metadata/is_file/is_dir/read_dir/open+read and walk_dir from every directory; the observers must tell one consistent story (model-free). Includes the states reached with a write handle kept open across other calls and, on a dedicated universe, the states after every refused call (residue mode).',
    note='alphabet bound incl. prefix-sharing, dotted, dots-only, multi-byte and backslash-carrying names', ref='3/C05'),
  'C07': dict(engine='seq(pair)', cat='model_checking', tech='product explicit-state BFS of altroot and translated twin + exhaustive hostile-join sweep with recorded underlying calls',
-   text='Alt(Recorder(X),P) and a twin X\' are explored in lock-step (op(q) vs op(P/q)); outcomes, sub-tree views and raw snapshots must agree; every path argument reaching X lies below P and the snapshot outside P (and outside the PhysicalFS root, at OS level) is unchanged; every join argument of <=3-4 hostile segments x 18 call kinds is swept. Three pairs also run the timestamp setters and compare which entries carry the written instant. Write handles obtained through the altroot are run against handles on P/q of a twin, every script of 3 steps (write, write_all, write!, seek, flush), comparing step results and the bytes the underlying filesystem shows after every step.',
+   text='Alt(Recorder(X),P) and a twin X\' are explored in lock-step (op(q) vs op(P/q)); outcomes, sub-tree views and raw snapshots must agree; every path argument reaching X lies below P and the snapshot outside P (and outside the PhysicalFS root, at OS level) is unchanged; every join argument of <=3-4 hostile segments x 18 call kinds is swept. Two pairs (memory and physical) explore the states after every refused call (residue mode). Three pairs also run the timestamp setters and compare which entries carry the written instant. Write handles obtained through the altroot are run against handles on P/q of a twin, every script of 3 steps (write, write_all, write!, seek, flush), comparing step results and the bytes the underlying filesystem shows after every step.',
    note='symlinks out of scope; alphabet bound; P of depth 0..3', ref='3/C07'),
  'C08': dict(engine='seq', cat='model_checking', tech='explicit-state BFS over overlays with recording wrappers on every layer',
    text='All calls incl. explicit observer calls in every reachable state of overlays with populated lower layers: the recorder log of lower layers never shows a mutating method, observers issue no mutating call to any layer, deep snapshots (type, bytes, created, modified) of lower layers are unchanged.',
@@ -29,7 +29,7 @@ CHECKS = {
    text='The C09 exploration run to fixpoint covers arbitrarily many remove / re-create cycles with type changes; model equality after every step shows removed entries stay absent and re-created ones start fresh; in every state the namespace is probed for .whiteout / *_wo entries.',
    note='alphabet bound; reserved names never generated, only probed', ref='3/C10'),
  'C12': dict(engine='seq', cat='model_checking', tech='explicit-state BFS; every Err of every call and observer checked against the allowed path set and kind classes',
-   text='Every error produced by any call or observer in the C01/C09 explorations must carry the call\'s path, its destination or an ancestor of them (a descendant only for calls that walk below their path: walk_dir, remove_dir_all, copy_dir, move_dir) in the caller\'s namespace (never the placeholder, never an underlying path) and the kinds the property fixes; read_to_string of files with invalid UTF-8 (in the middle, truncated at the end) on every stack; the invalid-path classification of every join string up to the bound.',
+   text='Every error produced by any call or observer in the C01/C09 explorations must carry the call\'s path, its destination or an ancestor of them (a descendant only for calls that walk below their path: walk_dir, remove_dir_all, copy_dir, move_dir) in the caller\'s namespace (never the placeholder, never an underlying path) and the kinds the property fixes; read_to_string of files with invalid UTF-8 (in the middle, truncated at the end) on every stack; the invalid-path classification of every join string up to the bound; kinds and paths of every error of every operation on every path of the embedded fixture; states after every refused call on a dedicated universe (residue mode).',
    note='altroot prefixes and scratch paths are disjoint from universe names, so a leaked underlying path is recognisable', ref='3/C12'),
 }
 
@@ -42,28 +42,28 @@ CHECKS.update({
    text='Every string over {/ . a b e-acute} up to length L joined onto 6 bases for VfsPath and AsyncVfsPath, associativity for all pairs of short strings, BFS over path values with join/parent/root; equality matrix over 17 ways of producing three paths on two filesystem instances; result, canonical form, parent/filename/extension/is_root/equality compared with a reference resolver.',
    note='L = 6 (quick) / 8 (thorough); longer strings and other characters are not covered (the random part of the property is not done: sampling)', ref='3/C06'),
  'C11': dict(engine='seq+xfer', cat='model_checking', tech='explicit-state BFS with the composite calls in the alphabet + exhaustive source-tree x destination x backend-pair enumeration against a two-tree model',
-   text='(a) create_dir_all / remove_dir_all / copy_* / move_* applied in every reachable state of every backend (model comparison); (b) every source tree over {a,a/a,a/b,b} with 4 contents x 6 destination classes x 4 calls x ordered pairs of backend instances (two filesystems, two instances of one backend, the same instance) against a two-tree model: exact copy, source untouched / gone, count, refusal of existing destinations without side effects.',
+   text='(a) create_dir_all / remove_dir_all / copy_* / move_* applied in every reachable state of every backend (model comparison); (b) every source tree over {a,a/a,a/b,b} with 4 contents x 6 destination classes x 4 calls x ordered pairs of backend instances (two filesystems, two instances of one backend, the same instance) against a two-tree model: exact copy, source untouched / gone, count, refusal of existing destinations without side effects; for failing calls the model leaves open (missing destination parent, parent is a file) outcome and remains of the source are compared across the instance pairings.',
    note='alphabet bound; destinations outside the source subtree', ref='3/C11'),
  'C13': dict(engine='all', cat='model_checking', tech='catch_unwind around every call of exhaustive explorations: unrestricted BFS incl. root removal, handle scripts, reader+writer interplay with removals, hostile on-disk contents, EmbeddedFS, join strings',
    text='No panic in: BFS with the unrestricted alphabet including removal of the root and the states after it and type-inconsistent overlay layerings; read/write/seek scripts at every offset; a read and a write handle on one file opened, used, dropped and re-opened in every order while the file or its parent is removed or replaced (sync and async); every call on / next to / below hostile on-disk entries; every operation on every path of the embedded fixtures; all join strings up to the bound. OverlayFS::new(&[]) is asserted to panic.',
    note='copy_dir/move_dir into the own subtree excluded (documented); the async port has its own sweep: unrestricted product BFS, reader scripts incl. offsets next to u64::MAX / i64::MIN, poll plans, all under catch_unwind', ref='3/C13'),
  'C14': dict(engine='handle', cat='model_checking', tech='exhaustive read/seek and write/seek/flush scripts on handles of every backend, call by call against std::io::Cursor',
-   text='Every script of d steps over 18 reader steps (reads of 0/1/2/5 bytes, read_to_end, read_exact, seeks from Start/Current/End before the start, inside, at and past the end) on files of 0, 1 and 4 bytes from Mem, Phys, Alt, Overlay (upper, lower-only, and middle layer shadowing a bottom copy) and Embedded, and every script over 15 writer steps (write, write_all, write!, seeks, flush) on create and append handles, compared call by call (return values, bytes, positions, published bytes) with std::io::Cursor.',
+   text='Every script of d steps over 18 reader steps (reads of 0/1/2/5 bytes, read_to_end, read_exact, seeks from Start/Current/End before the start, inside, at and past the end) on files of 0, 1 and 4 bytes from Mem, Phys, Alt, Overlay (upper, lower-only, and middle layer shadowing a bottom copy) and Embedded, and every script over 15 writer steps (write, write_all, write!, seeks, flush) on create and append handles, compared call by call (return values, bytes, positions, published bytes) with std::io::Cursor; append scripts that flushed and end at the original length get an epilogue that writes the open-time bytes back before the drop.',
    note='d = 4 (quick) / 5 (thorough, memory based); seeking on append handles compared on memory based stacks only', ref='3/C14'),
  'C15': dict(engine='async', cat='model_checking', tech='product explicit-state BFS sync vs async + exhaustive enumeration of poll schedules (<=2 injected Pendings) with an own executor',
-   text='Sync and async stacks of the same configuration are explored in lock-step (outcome classes, error kinds, observable trees); async read handles run all read/seek scripts against Cursor; for walks and the composites built on them every plan with 1 and 2 injected Pendings at the await points the wrapper owns (every AsyncFileSystem method entry, every read_dir stream item, at every level of the stack) must give the plan-free result, which must equal the sync twin; reader+writer scripts with removals end in the same tree in both worlds (memory based stacks); an async file of 300 001 bytes is read with read_to_end and buffers of 65 537..400 000 bytes and texts with 2-/3-/4-byte characters straddling the 8 KiB and 16 KiB marks with read_to_string; symlinks of four kinds x 13 calls x 2 targets give the same outcome classes on PhysicalFS and AsyncPhysicalFS.',
+   text='Sync and async stacks of the same configuration are explored in lock-step (outcome classes, error kinds, observable trees); async read handles run all read/seek scripts against Cursor; for walks and the composites built on them every plan with 1 and 2 injected Pendings at the await points the wrapper owns (every AsyncFileSystem method entry, every read_dir stream item, at every level of the stack) must give the plan-free result, which must equal the sync twin; two lock-step pairs explore the states after every refused call (residue mode); reader+writer scripts with removals end in the same tree in both worlds (memory based stacks); an async file of 300 001 bytes is read with read_to_end and buffers of 65 537..400 000 bytes and texts with 2-/3-/4-byte characters straddling the 8 KiB and 16 KiB marks with read_to_string; symlinks of four kinds x 13 calls x 2 targets give the same outcome classes on PhysicalFS and AsyncPhysicalFS.',
    note='AsyncPhysicalFS in lock-step only; <=2 (thorough: 3 on the largest trees) injected Pendings; alphabet bound', ref='3/C15'),
  'C16': dict(engine='sched', cat='model_checking', tech='stateless exhaustive schedule enumeration (cooperative scheduler at lock-acquisition yield points, visited-state pruning) + brute-force linearizability check against sequential runs of the real code',
-   text='For every small program (2 threads x 1 call/session over the full alphabet on overlapping paths x 4 initial states, all (2,1)-call programs of mutators on two paths, a write session (incl. one of 50 000 bytes and one that publishes twice) against a thread that first reads or stats the file and then changes it, and the same at the FileSystem trait level; thorough: 3 threads, 2 calls per thread) all interleavings at MemoryFS lock granularity are executed on the real code; per-thread results and final raw state of every schedule must equal those of some program-order-respecting sequential execution on a fresh MemoryFS; no panic, no deadlock (watchdog), and the final tree of every schedule is well-formed.',
+   text='For every small program (2 threads x 1 call/session over the full alphabet on overlapping paths x 4 initial states, all (2,1)-call programs of mutators on two paths, (change, then look) against a look, a write session (incl. one of 50 000 bytes and one that publishes twice) against a thread that first reads or stats the file and then changes it, and the same at the FileSystem trait level; thorough: 3 threads, 2 calls per thread) all interleavings at MemoryFS lock granularity are executed on the real code; per-thread results and final raw state of every schedule must equal those of some program-order-respecting sequential execution on a fresh MemoryFS; no panic, no deadlock (watchdog), and the final tree of every schedule is well-formed.',
    note='scheduling points = the verif-hooks yield points before each lock acquisition (exact for a single-lock safe-Rust structure); no preemption bound in quick; error kinds are compared in the FileSystem-trait-level program class (one critical section per call), not at the path level (a VfsPath call is several filesystem calls)', ref='3/C16'),
  'C17': dict(engine='sched', cat='model_checking', tech='stateless exhaustive schedule enumeration of k concurrent create_dir_all calls on all path multisets',
    text='k = 2,3 (thorough 4) threads each calling create_dir_all on every multiset of 7 paths sharing prefixes of every length, on MemoryFS, AltrootFS, OverlayFS (empty and with the shared prefix only in the lower layer), three-level stackings (Alt(Ov), Ov[Alt,Mem], Alt(Alt)) at lock granularity and on PhysicalFS at create_dir call granularity: also with the shared prefix removed through the filesystem before the race starts (overlay deletion markers in place): every call returns Ok and every prefix is a directory under every interleaving.',
    note='PhysicalFS: mkdir(2) atomic, nobody else touches the scratch directory; classes with a preemption bound are labelled in the evidence', ref='3/C17'),
  'C18': dict(engine='embed', cat='model_checking', tech='exhaustive enumeration of every public operation on every path of a derived finite path set of an immutable (single-state) filesystem, PhysicalFS on the same folder as oracle',
-   text='EmbeddedFS is immutable, so one state per fixture and depth-1 closure is all histories: every observer, read_to_string, walk_dir, reader scripts and every mutator (incl. transfers into / out of / inside it) on every path of the path set (files, implied directories, root, absent siblings, prefixes/extensions of names, paths below files, and variants of every name with the separator replaced by a backslash, a space or a colon) of two fixtures, compared with PhysicalFS on the same folder; mutators are refused (not-supported when their ordinary preconditions hold) and change nothing.',
+   text='EmbeddedFS is immutable, so one state per fixture and depth-1 closure is all histories: every observer, read_to_string, walk_dir, reader scripts and every mutator (incl. transfers into / out of / inside it) on every path of the path set (files, implied directories, root, absent siblings, prefixes/extensions of names, paths below files, and variants of every name with the separator replaced by a backslash, a space or a colon) of two fixtures, compared with PhysicalFS on the same folder; mutators are refused (not-supported when their ordinary preconditions hold) and change nothing; the observers are run on every path twice and both passes must agree.',
    note='two fixture folders; release build (rust-embed embeds at compile time)', ref='3/C18'),
  'C19': dict(engine='time', cat='model_checking', tech='exhaustive enumeration of boundary time values x setter orders x entry kinds x configurations x follow-up operations against a field-wise model',
-   text='8 boundary time values (epoch, sub-second, pre-epoch, far future) x every single setter and all 6 orders of the three setters x file/directory/symlink-to-file x Mem, Phys, Alt, Overlay over memory and over physical layers (entry in the upper layer, lower-only, and in upper and lower layers at once) x follow-up {nothing, read, append, overwrite, copy, setters while an append handle is open, an append handle written before the setters and dropped after them, a read before the setters}: an accepted setter sets exactly its field and nothing else, a refused one changes nothing, append on MemoryFS preserves created, adapters report the timestamps of the serving entry.',
+   text='8 boundary time values (epoch, sub-second, pre-epoch, far future) x every single setter and all 6 orders of the three setters x file/directory/symlink-to-file x Mem, Phys, Alt, Overlay over memory and over physical layers (entry in the upper layer, lower-only, and in upper and lower layers at once) x follow-up {nothing, read, append, overwrite, copy, setters while an append handle is open, an append handle written before the setters and dropped after them, a read before the setters, refused calls on the entry after the setters}: an accepted setter sets exactly its field and nothing else, a refused one changes nothing, append on MemoryFS preserves created, adapters report the timestamps of the serving entry.',
    note='PhysicalFS on tmpfs; metadata read immediately before/after each setter', ref='3/C19'),
  'C20': dict(engine='fault', cat='fault_enumeration', tech='for every reachable state x every call: fail each single underlying call position k = 1..n (thorough: all pairs) via a fault-injecting FileSystem wrapper',
    text='For every state of a BFS over the fault-free transitions and every call incl. observers, walk_dir and read_to_string: one fault-free run counts the n calls made into the wrapped filesystems of the stack (trait methods and every read/write/seek/flush on returned handles), then the call is re-run from the same state once per position k with exactly that call failing; the result must be Err (or an Err item), or Ok with the complete fault-free effect and answer; never a panic, never a mutating call on a lower layer.',
